@@ -17,7 +17,7 @@ func recordConfigs() []step {
 	for _, be := range []step{{A: "chan"}, {A: "chan", N: 1}, {A: "chan", N: 2}, {A: "queue"}, {A: "queue", N: 2}, {A: "deque"},
 		{A: "deque", N: 2}, {A: "nbdeque", N: 2}, {A: "lifo", N: 1}, {A: "lifo", N: 3}} {
 		for _, par := range []bool{false, true} {
-			for _, w := range []int{0, 1, 2, 3} {
+			for _, w := range []int{0, 1, 2, 3, 8} {
 				for _, buf := range []int{0, 0, 1} {
 					c := be
 					c.Op, c.Par, c.W, c.Buf = "new", par, w, buf
@@ -156,13 +156,29 @@ func record(n int, seed int64, only string) {
 				w.guarded(id, func() string { w.b.Wait(ctx); return "ok" })
 			}()
 		}
+		// one run in three is shut down abruptly, under load: the subscribers stop receiving and the broker is
+		// stopped while the publishers are still at it (workers are then in the middle of their sends); only the
+		// post-shutdown observation is made
+		abrupt := rng.Intn(3) == 0
+		if abrupt {
+			yield(rng, 40)
+			w.mu.Lock()
+			subs := []*subscriber{}
+			for _, s := range w.subs {
+				subs = append(subs, s)
+			}
+			w.mu.Unlock()
+			for _, s := range subs {
+				w.readOff(s)
+			}
+		}
 		// wait for the drivers - or for a fixed point in which some of them are blocked for good (a stalled
 		// broker must show up as an observation, not hang the recorder)
 		drivers := make(chan struct{})
 		go func() { sw.Wait(); close(drivers) }()
 		settled := false
 	waiting:
-		for tries := 0; tries < 60; tries++ {
+		for tries := 0; tries < 60 && !abrupt; tries++ {
 			select {
 			case <-drivers:
 				settled = true
@@ -174,7 +190,7 @@ func record(n int, seed int64, only string) {
 				}
 			}
 		}
-		if !settled {
+		if !settled && !abrupt {
 			// drivers blocked and the broker busy for ever (e.g. idle workers of a Deque back-end signalling each
 			// other): no observation is possible - this run is dropped, it is never a verdict
 			w.teardown()
@@ -185,7 +201,7 @@ func record(n int, seed int64, only string) {
 		// (DESIGN 3.3: never quiescent, not a listed property, and a snapshot of spinning goroutines is costly):
 		// for those configurations only the post-shutdown observation is made.
 		pingpong := (cfg.A == "deque" || cfg.A == "nbdeque" || cfg.A == "lifo") && cfg.W >= 2
-		if !pingpong {
+		if !pingpong && !abrupt {
 			if snap, err := rt.QuiesceBudget(600); err == nil {
 				lib := w.libGoroutines(snap)
 				w.rec.Log(rt.Event{"ev": "quiescent", "blocked": w.pending(), "depth": w.depth(), "live": len(lib), "where": where(lib)})
